@@ -245,6 +245,7 @@ struct Runner {
         auto r = M::try_get(*map, k);
         r0 = r.first;
         r1 = r.second;
+        if (opt("dbg", 0) && !r.first && k == opt("dbg", 0) - 1) fail("DBG", "try_get_value(%d) reported absent", k);
         break;
       }
       case O_FIND: {
@@ -361,7 +362,7 @@ void iter_test() {
     auto& map = *r.map;
     for (int step = 0; step < L; step++) {
       // actions: 0 begin, 1 ++, 2 erase(it), 3 reset, 4 find(k) (move-assign onto whatever `it` is), 5 map op (only when not positioned)
-      int act = choose(6);
+      int act = step == 0 && opt("act0", -1) >= 0 ? (int)opt("act0", 0) : step == 1 && opt("act1", -1) >= 0 ? (int)opt("act1", 0) : choose(opt("mapops", 1) ? 6 : 5);
       switch (act) {
         case 0:
           if (positioned) prune(); // begin() while holding a bucket would self-deadlock on the same bucket: not a legal program
@@ -393,7 +394,7 @@ void iter_test() {
           op_end();
           break;
         case 4: {
-          int k = choose(nkeys);
+          int k = opt("findkey", -1) >= 0 ? (int)opt("findkey", 0) : choose(nkeys);
           // find() locks the bucket of k before the result is move-assigned onto `it`: legal while positioned only
           // if k lives in another bucket.  The move-assignment has to release the bucket `it` held so far.
           if (positioned && M::bucket_of(k) == M::bucket_of(cur_key)) prune();
@@ -437,6 +438,16 @@ void iter_test() {
         for (int i = 0; i < m; i++) r.op(O_TRYGET, rkeys[t][i], t + 5);
       });
     join_all();
+  }
+  if (opt("dbg2", 0)) {
+    int k = (int)opt("dbg2", 0) - 1;
+    bool erased = false, absent = false;
+    for (int i = 0; i < history_size(); i++) {
+      const Event& e = history_at(i);
+      if ((e.op == O_ERASE || e.op == O_IT_ERASE) && e.a0 == k) erased = true;
+      if (e.op == O_TRYGET && e.a0 == k && e.r0 == 0) absent = true;
+    }
+    if (absent && !erased) fail("DBG", "try_get_value(%d) absent although never erased", k);
   }
   // every bucket lock must have been released: these operations spin forever otherwise (-> LIVELOCK verdict)
   for (int k = 0; k < nkeys; k++) r.op(O_TRYGET, k, 0);
@@ -497,6 +508,57 @@ void iter_test() {
   }
 }
 
+// fixed scenario: the iterator thread removes an element through find + erase(iterator) + reset while a lock-free
+// reader looks up another key of the same bucket (erase positions: extension head, second extension item, array slot)
+template <class M>
+void iter_fixed_test() {
+  set_op_names(kOps, 14);
+  const int nkeys = (int)opt("keys", 5), cap = 128;
+  Runner<M> r;
+  r.map = new typename M::Map(cap);
+  for (int k = 0; k < nkeys; k++) r.op(O_EMPLACE, k, 9);
+  const int victim = choose(nkeys);
+  const int wanted = choose(nkeys);
+  if (wanted == victim) prune();
+  spawn([=]() mutable {
+    auto& map = *r.map;
+    op_begin(O_IT_FIND, victim, 0, false);
+    auto it = map.find(M::key(victim));
+    bool pos = it != map.end();
+    op_end(pos, pos ? M::it_val(it) : 0);
+    if (!pos) fail("ORACLE", "find(%d) did not find the element", victim);
+    op_begin(O_IT_ERASE, victim, 0, false);
+    map.erase(it);
+    op_end(1);
+    op_begin(O_IT_RESET, 0, 0, false);
+    it.reset();
+    op_end();
+  });
+  spawn([=]() mutable { r.op(O_TRYGET, wanted, 5); });
+  join_all();
+  for (int k = 0; k < nkeys; k++) r.op(O_TRYGET, k, 0);
+  r.snapshot();
+  delete r.map;
+  struct ItSpec : MapSpec {
+    bool apply(const Event& e) {
+      switch (e.op) {
+        case O_IT_ERASE: {
+          int k = (int)e.a0;
+          if (val[k] < 0) return false;
+          val[k] = -1;
+          return true;
+        }
+        case O_IT_FIND:
+          if (e.r0) return val[(int)e.a0] >= 0 && val[(int)e.a0] == e.r1;
+          return val[(int)e.a0] < 0;
+        case O_IT_RESET: return true;
+        default: return MapSpec::apply(e);
+      }
+    }
+  };
+  lin::require_linearizable(ItSpec{}, "a sequential map (iterator actions as map operations)");
+}
+
 using R_HP = rec::HPs<6>;
 using R_HE = rec::HEs<6>;
 using R_EBR = rec::EBR;
@@ -507,7 +569,8 @@ using R_DEBRA = rec::DEBRA;
 #define C_ ,
 #define REGM(name, M) \
   XMC_TEST_FN("map_" name, (&map_test<M>), "vyukov_hash_map " name); \
-  XMC_TEST_FN("it_" name, (&iter_test<M>), "vyukov_hash_map iterators " name)
+  XMC_TEST_FN("it_" name, (&iter_test<M>), "vyukov_hash_map iterators " name); \
+  XMC_TEST_FN("itf_" name, (&iter_fixed_test<M>), "vyukov_hash_map find+erase(iterator) vs lock-free reader " name)
 REGM("tt_i1_hp", ModeTT<R_HP C_ KM_I1>);
 REGM("tt_i2_hp", ModeTT<R_HP C_ KM_I2>);
 REGM("tt_ic_hp", ModeTT<R_HP C_ KM_IC>);
